@@ -453,6 +453,12 @@ def killed_run(src, r, idx):
     rc, out, ev = e2v.traced(cmd, img, img + ".trace", env=env, timeout=180, kill_at=k, input=inp)
     recipe = {"bs": bs, "features": feats, "cmd": " ".join(os.path.basename(x) if "/" in x else x for x in cmd), "device_writes": nw, "killed_at_write": k, "rc": rc}
     mid = open(img, "rb").read()
+    if os.path.exists(und):
+        # -n never writes: not on an unfinished record either (where the real run goes on to mark the filesystem)
+        for fl in (["-n"], ["-n", "-f"]):
+            e2v.sh([T("misc/e2undo")] + fl + [und, img], timeout=120)
+            if open(img, "rb").read() != mid:
+                return recipe, "e2undo %s on the record of the killed run wrote to the device" % " ".join(fl)
     rc2, out2 = e2v.sh([T("misc/e2undo"), und, img], timeout=120)
     if rc2 != 0 and "doesn't match the undo file" in out2:
         # the run died between recording the superblock copy and a later superblock write: the
